@@ -951,6 +951,23 @@ theorem gaussRefines : Refines (gaussOps D) (PS.abs (D := D)) (PSInv (D := D)) w
   run := fun _ cs b r' hb hr => PS.runCircuit_refines cs b hb r' hr
   getModes := PS.getModes_live
   state := PS.stateNone_exact
+/-- the append of `All.__or__` is the single-mode `gate | r` -/
+theorem appendGate1_eq (p : Prog) (k : Int) (r : Ref) : p.appendGate1 k r = p.useOp [r] k [] := by
+  unfold Prog.appendGate1 Prog.useOp Prog.opOr
+  simp only [List.length_cons, List.length_nil, Nat.zero_add, beq_self_eq_true, if_true, Prog.nsBad,
+    List.isEmpty_cons, bne_self_eq_false, Bool.or_self, Bool.false_eq_true, if_false]
+
+/-- `All(gate) | reg` = test the whole selection, then one single-mode `gate | r` per item -/
+theorem allOp_eq (p : Prog) (reg : List Ref) (k : Int) :
+    p.allOp reg k = match p.testRegrefs reg with
+      | .error e => .error e
+      | .ok _ => reg.foldlM (fun q r => q.useOp [r] k []) p := by
+  have h : (fun (q : Prog) (r : Ref) => q.appendGate1 k r) = fun q r => q.useOp [r] k [] := by
+    funext q r; exact appendGate1_eq q k r
+  unfold Prog.allOp
+  cases p.testRegrefs reg with
+  | error e => rfl
+  | ok v => simp only [h]
 end SimSec
 
 end SFV.Reg
